@@ -323,7 +323,7 @@ def gen_case(rng, ctx):
             if rng.random() < 0.2:
                 data["$domain"] = "stale"
         evs.append(dict(ts=base + rng.randrange(0, 50) * unit, dur=rng.randrange(0, 5) * unit + rng.choice([0, 1]),
-                        data=data, **({"id": i} if rng.random() < 0.5 else {}), **({"zone": zone} if zone and rng.random() < 0.7 else {})))
+                        data=data, **({"id": (i if rng.random() < 0.8 else rng.randrange(0, 3))} if rng.random() < 0.5 else {}), **({"zone": zone} if zone and rng.random() < 0.7 else {})))
     case = dict(fn=fn, events=evs)
     if fn in ("categorize", "tag"):
         rules = _rules(rng)
